@@ -875,7 +875,8 @@ def _indexed_by(v: T, selfp: T, attr: str, ids: T, live: T = None):
                 z.op == "cmp" and z.args[0] in ("Is", "IsNot") and
                 z.args[2] is tm.NONE and z.args[1].op != "ite" and (
                     z.args[1] is tm.NONE or is_call_to(
-                        z.args[1], "builtins.slice"))) else None)
+                        z.args[1], "builtins.slice") or
+                    z.args[1].op == "slice")) else None)
             if nxt is t:
                 break
             t = nxt
@@ -897,10 +898,15 @@ def _indexed_by(v: T, selfp: T, attr: str, ids: T, live: T = None):
         core = leaf
         if is_call_to(core, "builtins.list") and len(core.args[1]) == 1:
             core = core.args[1][0]
+        sl_ = core.args[1] if core.op == "sub" else None
+        if sl_ is not None and sl_.op == "slice" and \
+                sl_.args[2] is tm.NONE and sl_.args[0] is not tm.NONE:
+            sl_ = tm.call(tm.glob("builtins.slice"),
+                          (sl_.args[0], sl_.args[1]), ())
         if core.op == "sub" and core.args[0] is own and is_call_to(
-                core.args[1], "builtins.slice") and \
-                len(core.args[1].args[1]) == 2:
-            a_, b_ = core.args[1].args[1]
+                sl_, "builtins.slice") and \
+                len(sl_.args[1]) == 2:
+            a_, b_ = sl_.args[1]
             rng = tm.call(tm.glob("numpy.arange"), (a_, b_), ())
             est = [c for c, bit in zip(conds, bits) if bit and is_call_to(
                 c, "numpy.array_equal") and len(c.args[1]) == 2 and
